@@ -166,3 +166,23 @@ def model_to_dict(model):
         except Exception:
             out[d.name()] = str(v)
     return out
+
+
+def safe_analyze(default):
+    """decorator for pool workers: an unexpected exception inside the analysis of one case must not crash
+    the check; the case is reported as inconclusive (status 'internal_error') with the traceback"""
+    import functools
+    import traceback
+
+    def deco(fn):
+        @functools.wraps(fn)
+        def wrapped(args):
+            try:
+                return fn(args)
+            except Exception:  # noqa
+                out = default(args)
+                out["status"] = "internal_error"
+                out["note"] = traceback.format_exc()[-700:]
+                return out
+        return wrapped
+    return deco
